@@ -38,7 +38,7 @@ package http
 // wire, and make([]byte, nameN) with nameN = the name length from the wire, both unchecked (`size` is the
 // number of map entries resp. bytes requested).
 //@   alloc bound size <= maxWireName()
-//@   ensures   err == e
+//@   ensures   err == e || (e == nil && err != nil && vLen > litefs.MaxStreamNameSize)
 //@   ensures   err == nil <==> result0 != nil
 //@   ensures   err == nil ==> s == 0 && len(result0) <= int(cnt)
 //@   nopanic
